@@ -18,7 +18,8 @@ SetOf(s) == {s[i] : i \in DOMAIN s}
 
 C01Clauses == {"raised", "count", "slots", "range", "callshape", "jds_carried", "input_mutated",
                "net_nodes", "net_jd", "net_edges", "motif_shape"}
-C02Clauses == {"raised", "parallel", "pairs", "ids_blocks", "ids_distinct", "names", "edges_are_returned"}
+C02Clauses == {"raised", "parallel", "pairs", "ids_blocks", "ids_distinct", "names", "edges_are_returned",
+               "network_edge_names", "network_edge_ids"}
 
 Failed(t) ==
     LET N == t.N
@@ -40,6 +41,8 @@ Failed(t) ==
         NameAt(m, i) == IF t.motifs[m].homog THEN t.motifs[m].names[1]
                         ELSE IF i \in DOMAIN t.motifs[m].names THEN t.motifs[m].names[i] ELSE "?"
         UPair(e) == {e[1], e[2]}
+        AllRet == UNION {{<<x, y>> : y \in DOMAIN calls[x].ret} : x \in DOMAIN calls}
+        OnceOverall(p) == Cardinality({z \in AllRet : UPair(calls[z[1]].ret[z[2]]) = p}) = 1
         clauses == IF Which = "C01" THEN C01Clauses ELSE C02Clauses
     IN
     IF t.raised # "" THEN {"raised"} ELSE
@@ -67,6 +70,16 @@ Failed(t) ==
                  LET mo == t.motifs[calls[cc].m] IN
                  mo.check_shape /\ calls[cc].ret # [i \in DOMAIN mo.shape |->
                                        <<calls[cc].verts[mo.shape[i][1]], calls[cc].verts[mo.shape[i][2]]>>]
+            \* network variant: an edge whose pair was produced exactly once carries the name / id of the call that produced it
+         [] c = "network_edge_names" -> t.has_net /\ \E cc \in DOMAIN calls : \E i \in DOMAIN calls[cc].ret :
+                 LET p == UPair(calls[cc].ret[i]) IN
+                 OnceOverall(p) /\ \E k \in DOMAIN t.net_edges : UPair(t.net_edges[k]) = p /\ t.net_attr[k][1] # NameAt(calls[cc].m, i)
+         [] c = "network_edge_ids" -> t.has_net /\
+                 LET idOf(cc, i) == t.net_attr[CHOOSE k \in DOMAIN t.net_edges : UPair(t.net_edges[k]) = UPair(calls[cc].ret[i])][2]
+                     once(cc) == {i \in DOMAIN calls[cc].ret : OnceOverall(UPair(calls[cc].ret[i])) /\
+                                    \E k \in DOMAIN t.net_edges : UPair(t.net_edges[k]) = UPair(calls[cc].ret[i])}
+                 IN \/ \E cc \in DOMAIN calls : \E i, j \in once(cc) : idOf(cc, i) # idOf(cc, j)
+                    \/ \E cc, d \in DOMAIN calls : cc # d /\ \E i \in once(cc) : \E j \in once(d) : idOf(cc, i) = idOf(d, j)
          [] c = "parallel" -> t.has_cols /\ ~par
          [] c = "pairs" -> t.has_cols /\ \E i \in DOMAIN t.pair_ok : ~t.pair_ok[i]
          [] c = "edges_are_returned" -> t.has_cols /\ par /\ Len(t.edge) # total
